@@ -5,7 +5,7 @@
 From Coq Require Import ZArith List Bool Arith Lia.
 From Cspuz Require Import Lib.PyErr Core.Expr Core.Program Core.Build
   Graph.GraphModel Graph.ReachProofs Graph.Avc Graph.AvcCert Graph.AvcSem Graph.AvcTotal Graph.AvcProofs
-  Array.Slice Graph.NotAdj Graph.NotAdjForest Graph.NotAdjDiag Graph.NotAdjBounded Graph.NotAdjSem
+  Array.Slice Graph.NotAdj Graph.NotAdjForest Graph.NotAdjDiag Graph.NotAdjBounded Graph.NotAdjBoundedIndep Graph.NotAdjSem
   Graph.NotAdjMain.
 Import ListNotations.
 Local Open Scope nat_scope.
@@ -215,7 +215,7 @@ Qed.
 
 (* ... which, up to the kernel-checked bound, is the graph definition *)
 Theorem not_segmenting_grid_exact_bounded cfg st h w l en :
-  2 <= h -> 2 <= w -> h * w <= 12 ->
+  2 <= h -> 2 <= w -> h * w <= 16 ->
   length l = h * w -> (forall a, In a l -> is_boolexpr a = true) ->
   fresh_below (next_id st) l -> acts_defined en l ->
   exists st',
@@ -228,8 +228,8 @@ Proof.
   intros Hh Hw Hb Hlen Hbx Hfr Hdef.
   destruct (not_segmenting_grid_diag_exact cfg st h w l en Hh Hw Hlen Hbx Hfr Hdef) as [st' [Hp Hex]].
   exists st'. split; [exact Hp|]. rewrite Hex. unfold spec_not_segmenting. split.
-  - intros [Hi Hs]. split; [exact Hi|]. apply (diag_equiv_12 h w _ Hh Hw Hb Hi). exact Hs.
-  - intros [Hi Hc]. split; [exact Hi|]. apply (diag_equiv_12 h w _ Hh Hw Hb Hi). exact Hc.
+  - intros [Hi Hs]. split; [exact Hi|]. apply (diag_equiv_16 h w _ Hh Hw Hb Hi). exact Hs.
+  - intros [Hi Hc]. split; [exact Hi|]. apply (diag_equiv_16 h w _ Hh Hw Hb Hi). exact Hc.
 Qed.
 
 (* single rows and single columns use the connectivity encoding: exact for
@@ -283,7 +283,7 @@ Definition completable (st st' : state) (en : env) : Prop :=
               forallb (holds gsem_avc en') (new_cons st st') = true.
 
 Theorem grid_form_matches_graph_form_bounded st h w l en stg stx :
-  1 <= h -> 1 <= w -> (h = 1 \/ w = 1 \/ h * w <= 12) ->
+  1 <= h -> 1 <= w -> (h = 1 \/ w = 1 \/ h * w <= 16) ->
   length l = h * w -> (forall a, In a l -> is_boolexpr a = true) ->
   fresh_below (next_id st) l -> acts_defined en l ->
   post_not_segmenting false st (AArr2 h w l) None = (stg, None) ->
@@ -296,7 +296,7 @@ Proof.
   unfold completable. rewrite Hgx.
   destruct (Nat.eq_dec h 1) as [H1|H1]; [apply (not_segmenting_line_exact st h w l stg en); auto|].
   destruct (Nat.eq_dec w 1) as [W1|W1]; [apply (not_segmenting_line_exact st h w l stg en); auto|].
-  assert (Hb : h * w <= 12) by (destruct Hcase as [?|[?|?]]; [lia|lia|assumption]).
+  assert (Hb : h * w <= 16) by (destruct Hcase as [?|[?|?]]; [lia|lia|assumption]).
   destruct (not_segmenting_grid_exact_bounded false st h w l en ltac:(lia) ltac:(lia) Hb Hlen Hbx Hfr Hdef)
     as [st' [Hp Hex]].
   rewrite Hg in Hp. inversion Hp; subst st'. exact Hex.
@@ -369,3 +369,27 @@ Theorem wrapper_type_errors cfg st h w l g l' :
   post_not_segmenting cfg st (ASeq l') None = (st, Some TypeError) /\
   post_not_segmenting cfg st (AArr1 l') None = (st, Some TypeError).
 Proof. repeat split. Qed.
+
+(* ------------------------------------------------------------------------ *)
+(* the hypotheses of the theorems are satisfiable: a 2 x 3 BoolArray2D of
+   fresh variables, all inactive -- the block is completable *)
+Example grid_theorem_instance :
+  let st := fst (bool_array empty_state 6) in
+  let l := snd (bool_array empty_state 6) in
+  let en := {| eb := fun _ => false; ei := fun _ => 0%Z |} in
+  exists st', post_not_segmenting false st (AArr2 2 3 l) None = (st', None) /\ completable st st' en.
+Proof.
+  intros st l en.
+  assert (Hlen : length l = 2 * 3) by reflexivity.
+  assert (Hbx : forall a, In a l -> is_boolexpr a = true).
+  { intros a Ha. simpl in Ha. repeat (destruct Ha as [<-|Ha]; [reflexivity|]). destruct Ha. }
+  assert (Hfr : fresh_below (next_id st) l).
+  { intros a Ha. simpl in Ha. repeat (destruct Ha as [<-|Ha]; [cbv; lia|]). destruct Ha. }
+  assert (Hdef : acts_defined en l).
+  { intros a Ha. simpl in Ha. repeat (destruct Ha as [<-|Ha]; [eexists; reflexivity|]). destruct Ha. }
+  destruct (not_segmenting_grid_exact_bounded false st 2 3 l en ltac:(lia) ltac:(lia) ltac:(simpl; lia)
+              Hlen Hbx Hfr Hdef) as [st' [Hp Hex]].
+  exists st'. split; [exact Hp|]. apply Hex. split.
+  - apply independent_b_spec. vm_compute. reflexivity.
+  - apply connected_b_spec; [apply grid_wf|]. vm_compute. reflexivity.
+Qed.
